@@ -932,3 +932,61 @@ spec fn star_at(d: DFA, e: (u32, InpId, u32), p: (u32, u32)) -> bool {
 }
 
 } // verus!
+verus! {
+
+/// x is a within-word symbol whose automaton is s
+spec fn sub_at(d: DFA, x: Inp, s: DFA) -> bool {
+    x is Subword && 0 <= dfa_ix(x->subdfa) < d.subdfas.store@.len() && d.subdfas.store@[dfa_ix(x->subdfa)] == s
+}
+
+} // verus!
+verus! {
+
+/// s is the automaton of one of the first n symbols of src
+spec fn sub_src(d: DFA, src: Seq<&Inp>, n: int, s: DFA) -> bool {
+    exists|k: int| 0 <= k < n && k < src.len() && sub_at(d, *(#[trigger] src[k]), s)
+}
+
+/// the automaton of the within-word symbol x is in out
+spec fn out_has(d: DFA, out: Seq<&DFA>, x: Inp) -> bool {
+    exists|j: int| 0 <= j < out.len() && sub_at(d, x, *(#[trigger] out[j]))
+}
+
+spec fn subs_inv(d: DFA, src: Seq<&Inp>, n: int, out: Seq<&DFA>) -> bool {
+    (forall|j: int| 0 <= j < out.len() ==> sub_src(d, src, n, *(#[trigger] out[j])))
+    && (forall|k: int| 0 <= k < n && k < src.len() && (*(#[trigger] src[k])) is Subword ==> out_has(d, out, *src[k]))
+}
+
+proof fn lemma_subs_skip(d: DFA, src: Seq<&Inp>, n: int, out: Seq<&DFA>)
+    requires subs_inv(d, src, n, out), 0 <= n < src.len(), !((*src[n]) is Subword)
+    ensures subs_inv(d, src, n + 1, out)
+{
+    assert forall|j: int| 0 <= j < out.len() implies sub_src(d, src, n + 1, *(#[trigger] out[j])) by {
+        assert(sub_src(d, src, n, *out[j]));
+        let k = choose|k: int| 0 <= k < n && k < src.len() && sub_at(d, *(#[trigger] src[k]), *out[j]);
+        assert(sub_at(d, *src[k], *out[j]));
+    }
+}
+
+proof fn lemma_subs_push(d: DFA, src: Seq<&Inp>, n: int, out: Seq<&DFA>, s: &DFA)
+    requires subs_inv(d, src, n, out), 0 <= n < src.len(), sub_at(d, *src[n], *s)
+    ensures subs_inv(d, src, n + 1, out.push(s))
+{
+    let o2 = out.push(s);
+    assert forall|j: int| 0 <= j < o2.len() implies sub_src(d, src, n + 1, *(#[trigger] o2[j])) by {
+        if j < out.len() {
+            assert(sub_src(d, src, n, *out[j]));
+            let k = choose|k: int| 0 <= k < n && k < src.len() && sub_at(d, *(#[trigger] src[k]), *out[j]);
+            assert(sub_at(d, *src[k], *o2[j]));
+        } else { assert(sub_at(d, *src[n], *o2[j])); }
+    }
+    assert forall|k: int| 0 <= k < n + 1 && k < src.len() && (*(#[trigger] src[k])) is Subword implies out_has(d, o2, *src[k]) by {
+        if k < n {
+            assert(out_has(d, out, *src[k]));
+            let j = choose|j: int| 0 <= j < out.len() && sub_at(d, *src[k], *(#[trigger] out[j]));
+            assert(sub_at(d, *src[k], *o2[j]));
+        } else { assert(sub_at(d, *src[k], *o2[out.len() as int])); }
+    }
+}
+
+} // verus!
